@@ -284,6 +284,15 @@ func c08Shard(c *drv.Ctx, shard, checks int) (*drv.Stats, *drv.Violation, error)
 			for _, v := range lab.AllVariants {
 				st.Eval()
 				if what = checkGenerated(cs.Text, v, cs.G.Imports); what != "" {
+					if strings.Contains(what, "did not terminate") {
+						// a time budget is never a violation: counted, reported as inconclusive
+						st.Class("generation_did_not_terminate")
+						if _, ok := st.Extra["generation_hung_on"]; !ok {
+							st.Extra["generation_hung_on"] = map[string]any{"options": v.Flags(), "text": strings.Split(cs.Text, "\n")}
+						}
+						what = ""
+						break
+					}
 					guard.Record(key, what)
 					break
 				}
@@ -417,6 +426,9 @@ func init() {
 		},
 		func(c *drv.Ctx) error {
 			err := drv.RunSharded(c, "c08", c.Pick(128, 4000), c.Pick(8, 16), 30*time.Minute)
+			if n := c.Stats.Classes["generation_did_not_terminate"]; n > 0 && len(c.Violations) == 0 {
+				c.Inconclusive = fmt.Sprintf("%d generations did not terminate within %v (see generation_hung_on in the evidence); a hang is reported as inconclusive by policy", n, lab.GenerateTimeout)
+			}
 			if err != nil || len(c.Violations) > 0 {
 				return err
 			}
